@@ -134,7 +134,7 @@ func gVote(c *Check) {
 
 	// (c) isUpToDate is the exact lexicographic comparison
 	ifi := p.Info(isUpToDate)
-	for _, ret := range returnsOf(ifi) {
+	{
 		l := ifi.Sym(isUpToDate.Params[0])
 		their := ifi.Sym(isUpToDate.Params[1])
 		our := CallSym(lastEntryID, l)
@@ -142,9 +142,13 @@ func gVote(c *Check) {
 			bfCmp(FieldOf(their, eidT), ">", FieldOf(our, eidT)),
 			bfAnd(bfCmp(FieldOf(their, eidT), "==", FieldOf(our, eidT)), bfCmp(FieldOf(their, eidI), ">=", FieldOf(our, eidI))),
 		)
-		code := ifi.valueBF(ifi.RetVal(ret, 0), 0)
-		ok, why := bfEquiv(code, spec)
-		c.Result(ok, rule+".uptodate", "return of raftLog.isUpToDate", fnName(isUpToDate), p.site(ret), "their.term > our.term || (their.term == our.term && their.index >= our.index), our <- lastEntryID()", fmt.Sprintf("code: %s %s", code, why))
+		code := p.ReturnFormula(isUpToDate)
+		if code == nil {
+			c.Undecided(rule+".uptodate", "raftLog.isUpToDate", fnName(isUpToDate), p.Pos(isUpToDate.Pos()), "lexicographic (term, index) comparison", "function too complex to summarise")
+		} else {
+			ok, why := bfEquiv(code, spec)
+			c.Result(ok, rule+".uptodate", "raftLog.isUpToDate", fnName(isUpToDate), p.Pos(isUpToDate.Pos()), "their.term > our.term || (their.term == our.term && their.index >= our.index), our <- lastEntryID()", fmt.Sprintf("code: %s %s", code, why))
+		}
 	}
 
 	// (d) grants: vote responses without Reject
